@@ -202,3 +202,332 @@ class ProviderReindexAfterUpdate(_c02.DescriptorProcessTransaction):
 class ConsumerReindexAfterUpdate(_c01.DescriptionModifications):
     id = 'C11.consumer_description_update_reindexes_after_update'
     prop = 'C11'
+
+
+# ---------------------------------------------------------------------------------------------------------------
+# composition of the leaf operations inside MultiKeyLookup (structure of every path, any number of indices / refs)
+
+LK = f'{MOD}:MultiKeyLookup'
+
+
+def _oid(st, v):
+    return v.e if v.kind == 'ref' else Val.oid(st.box(v))
+
+
+class _TableBase(FnCheck):
+    """Pre-state of a MultiKeyLookup: object set, back-reference dict id(obj) -> list of _ObjRef, index dict."""
+    prop = 'C11'
+    tag = 'S'
+    opaque_ok = True
+    LOGGED = ('rm_key', 'mk_keys', '_rm_indices', '_mk_indices', '_update_indices', '_add_object', 'setdefault')
+    trusted = ('leaf contracts C11.mk_keys / C11.u_mk_keys / C11.rm_key (proved): a leaf call writes only its own index',)
+    stable_fields = ('_objects', '_object_ids', '_idx_defs', '_lock', 'index_dict', 'key')
+
+    def build_table(self, b, with_entry=True):
+        st = b.st
+        ids = b.obj('object_ids')
+        objs = b.obj('objects')
+        idx = b.obj('idx_defs')
+        lock = b.obj('lock')
+        for o, c in ((ids, 'dict'), (objs, 'set'), (idx, 'dict')):
+            st.assume(z3.Select(st.get_arr('C'), o.e) == b.ex.ctx.builtin_class_ids[c])
+        self.t = b.obj('self', cls=(MOD, 'MultiKeyLookup'), _objects=objs, _object_ids=ids, _idx_defs=idx, _lock=lock)
+        self.ids, self.objs, self.idx, self.lock = ids, objs, idx, lock
+        self.obj = b.obj('obj')
+        b.distinct(self.t, ids, objs, idx, lock, self.obj)
+        self.idkey = Val.int(self.obj.e)      # id(obj) in the engine's model: the object identity as an int
+        if with_entry:
+            refs = b.obj('refs')
+            st.assume(z3.Select(st.get_arr('C'), refs.e) == b.ex.ctx.builtin_class_ids['list'])
+            b.distinct(self.t, ids, objs, idx, lock, self.obj, refs)
+            st.assume(z3.Select(z3.Select(st.get_arr('DK'), ids.e), self.idkey))
+            st.assume(z3.Select(z3.Select(st.get_arr('DV'), ids.e), self.idkey) == Val.ref(refs.e))
+            self.refs = refs
+            self.R0 = z3.Select(st.get_arr('L'), refs.e)
+        b.ex.ctx.sym_defaultdicts = [(ids.e, 'list')]     # _object_ids = defaultdict(list)
+        kt = z3.Const('kt', Val)
+        dv = z3.Select(st.get_arr('DV'), ids.e)
+        # type invariant: the values of _object_ids are list objects of the pre-state, none of them a table member
+        st.assume(z3.ForAll([kt], z3.Implies(z3.Select(z3.Select(st.get_arr('DK'), ids.e), kt), z3.And(
+            Val.is_ref(z3.Select(dv, kt)), Val.oid(z3.Select(dv, kt)) > 0, Val.oid(z3.Select(dv, kt)) < 10 ** 9,
+            Val.oid(z3.Select(dv, kt)) != ids.e,
+            z3.Select(st.get_arr('C'), Val.oid(z3.Select(dv, kt))) == b.ex.ctx.builtin_class_ids['list']))))
+        st.ghost['calls'] = ()
+        return self.t
+
+    def hooks(self, ex):
+        chk = self
+
+        class H:
+            tracked_names = chk.LOGGED
+
+            @staticmethod
+            def on_loop_havoc(ex_, st, node):
+                st.ghost['calls'] += (('#loop', ex_.loop_ordinal(node)),)
+
+            @staticmethod
+            def on_call(ex_, st, fv, keys, args, kwargs, node):
+                name = getattr(fv, 'name', None) or (fv.fn.name if fv.t == 'repo' else None)
+                if name not in chk.LOGGED:
+                    return None
+                recv = fv.recv if fv.t == 'method' else getattr(fv, 'self_v', None)
+                rec = (name, st.box(recv) if recv is not None else None, tuple(st.box(a) for a in args))
+                st.ghost['calls'] += (rec,)
+                return chk.callee_outcomes(ex_, st, name, recv, args, node)
+        return H
+
+    def callee_outcomes(self, ex, st, name, recv, args, node):
+        return [(st, NONE)]
+
+    @staticmethod
+    def own_calls(st, ordinal):
+        calls = st.ghost['calls']
+        heads = [i for i, c in enumerate(calls) if c == ('#loop', ordinal)]
+        return tuple(c for c in calls[heads[-1] + 1:] if c[0] != '#loop') if heads else ()
+
+    def entry_of(self, st, d, k):
+        return z3.Select(z3.Select(st.get_arr('DK'), d.e), k), z3.Select(z3.Select(st.get_arr('DV'), d.e), k)
+
+
+@register
+class RmIndices(_TableBase):
+    id = 'C11.rm_indices'
+    target = f'{LK}._rm_indices'
+    doc = ('_rm_indices(obj): iterates exactly the back references recorded for obj; every iteration makes exactly one '
+           'rm_key(ref.key, obj) call on ref.index_dict; afterwards the back-reference entry of obj is gone and every '
+           'other entry of _object_ids is untouched; never raises when obj has an entry')
+
+    def setup(self, b):
+        t = self.build_table(b)
+        return t, [self.obj], {}
+
+    def loops(self, ex):
+        def inv(ex_, st, env):
+            if env['_phase'] == 'entry':
+                ex_.oblige(st, 'loop.iterates_the_recorded_back_references',
+                           env['_seq'] == z3.Select(st.get_arr('L'), self.refs.e), kind='loop')
+            if env['_phase'] == 'preserve':
+                own = self.own_calls(st, 0)
+                item = st.box(st.locals['obj_ref'])
+                ex_.oblige(st, 'loop.one_rm_key_per_reference_on_its_index_with_its_key', z3.And(
+                    z3.BoolVal(len(own) == 1 and own[0][0] == 'rm_key'),
+                    Val.oid(own[0][1]) == Val.oid(z3.Select(st.get_arr('f:index_dict'), Val.oid(item))),
+                    own[0][2][0] == z3.Select(st.get_arr('f:key'), Val.oid(item)),
+                    own[0][2][1] == Val.ref(self.obj.e)) if len(own) == 1 else z3.BoolVal(False), kind='loop')
+            return z3.BoolVal(True)
+        return {0: LoopSpec(inv=inv, havoc_heap=[])}
+
+    def post(self, ex, st0, st, outcome, b):
+        if outcome[0] == 'exc':
+            ex.oblige(st, 'never_raises_when_obj_has_an_entry', z3.BoolVal(False), info={'exc': repr(outcome[1])})
+            return
+        has, _ = self.entry_of(st, self.ids, self.idkey)
+        ex.oblige(st, 'back_reference_entry_removed', z3.Not(has))
+        kq = z3.Const('kq', Val)
+        h0, v0 = self.entry_of(st0, self.ids, kq)
+        h1, v1 = self.entry_of(st, self.ids, kq)
+        ex.oblige(st, 'other_back_references_untouched', z3.ForAll([kq], z3.Implies(kq != self.idkey, z3.And(h0 == h1, v0 == v1))))
+        ex.oblige(st, 'object_set_untouched', z3.Select(st.get_arr('S'), self.objs.e) == z3.Select(st0.get_arr('S'), self.objs.e))
+        ex.oblige(st, 'recorded_reference_list_itself_untouched', z3.Select(st.get_arr('L'), self.refs.e) == self.R0)
+
+
+@register
+class UpdateIndices(_TableBase):
+    id = 'C11.update_indices'
+    target = f'{LK}._update_indices'
+    doc = ('_update_indices(obj): removes the old index entries, then makes the new ones (in this order, once each). '
+           'When making them is rejected (any exception, e.g. duplicate key in a unique index) every recorded old '
+           'reference is put back: one setdefault(ref.key, []) on ref.index_dict per old reference and obj appended to '
+           'the returned list, the back-reference entry of obj holds exactly the old references again, and the '
+           'exception of _mk_indices propagates')
+    trusted = _TableBase.trusted + ('C11.rm_indices / C11.mk_indices (contracts of the callees, proved separately)',)
+
+    def setup(self, b):
+        t = self.build_table(b)
+        return t, [self.obj], {}
+
+    def callee_outcomes(self, ex, st, name, recv, args, node):
+        from pyvc.models import dict_del
+        if name == '_rm_indices':
+            dict_del(ex, st, self.ids, vany(self.idkey))        # C11.rm_indices: entry removed, nothing else
+            return [(st, NONE)]
+        if name == '_mk_indices':
+            bad = st.fork()                                     # C11.mk_indices: rejected => _object_ids untouched
+            ok_list = st.new_list()
+            from pyvc.models import dict_set
+            st.set_list_seq(ok_list, fresh(SeqVal, 'new_refs'))
+            dict_set(ex, st, self.ids, vany(self.idkey), ok_list)
+            return [(bad, Raise(ex.mk_exc('*', 'raised by _mk_indices'))), (st, NONE)]
+        if name == 'setdefault':
+            lst = fresh(IntS, 'entry')
+            st.assume(z3.And(lst > 0, lst < 10 ** 9, lst != self.refs.e, lst != self.ids.e,
+                             z3.Select(st.get_arr('C'), lst) == ex.ctx.builtin_class_ids['list']))
+            st.ghost['c:entry'] = (lst, z3.Select(st.get_arr('L'), lst))
+            return [(st, vref(lst))]
+        return [(st, NONE)]
+
+    def loops(self, ex):
+        def inv(ex_, st, env):
+            if env['_phase'] == 'entry':
+                ex_.oblige(st, 'restore.iterates_the_references_recorded_before_the_removal', env['_seq'] == self.R0, kind='loop')
+            if env['_phase'] == 'preserve':
+                own = self.own_calls(st, 0)
+                item = st.box(st.locals['obj_ref'])
+                ok = z3.BoolVal(False)
+                if len(own) == 1 and own[0][0] == 'setdefault' and len(own[0][2]) == 2 and 'c:entry' in st.ghost:
+                    lst, before = st.ghost['c:entry']
+                    dflt = own[0][2][1]
+                    ok = z3.And(Val.oid(own[0][1]) == Val.oid(z3.Select(st.get_arr('f:index_dict'), Val.oid(item))),
+                                own[0][2][0] == z3.Select(st.get_arr('f:key'), Val.oid(item)),
+                                Val.is_ref(dflt), Val.oid(dflt) >= 10 ** 9,
+                                z3.Select(st.get_arr('L'), Val.oid(dflt)) == z3.Empty(SeqVal),
+                                z3.Select(st.get_arr('L'), lst) == z3.Concat(before, z3.Unit(Val.ref(self.obj.e))))
+                ex_.oblige(st, 'restore.obj_put_back_under_the_old_key_of_the_old_index_once', ok, kind='loop')
+            # the private copy of the old references is not changed by the restore steps
+            return {'copy_of_old_references_unchanged': z3.Select(st.get_arr('L'), _oid(st, st.locals['old_refs'])) == self.R0}
+        return {0: LoopSpec(inv=inv, havoc_heap=['L'])}
+
+    def post(self, ex, st0, st, outcome, b):
+        calls = [c for c in st.ghost['calls']]
+        names = [c[0] for c in calls if c[0] != '#loop' and c[0] != 'setdefault']
+        ex.oblige(st, 'old_entries_removed_before_new_ones_are_made_once_each', z3.And(
+            z3.BoolVal(names == ['_rm_indices', '_mk_indices']),
+            *[c[2][0] == Val.ref(self.obj.e) for c in calls if c[0] in ('_rm_indices', '_mk_indices')]))
+        has, val = self.entry_of(st, self.ids, self.idkey)
+        if outcome[0] == 'ret':
+            ex.oblige(st, 'accepted_update_makes_no_restore_step', z3.BoolVal(all(c[0] != 'setdefault' for c in calls)))
+            return
+        ex.oblige(st, 'rejected.exception_of_mk_indices_propagates', z3.BoolVal(outcome[1].origin == 'raised by _mk_indices'))
+        ex.oblige(st, 'rejected.back_references_are_the_old_ones_again', z3.And(
+            has, Val.is_ref(val), z3.Select(st.get_arr('L'), Val.oid(val)) == self.R0))
+        kq = z3.Const('kq', Val)
+        h0, v0 = self.entry_of(st0, self.ids, kq)
+        h1, v1 = self.entry_of(st, self.ids, kq)
+        ex.oblige(st, 'rejected.other_back_references_untouched', z3.ForAll([kq], z3.Implies(kq != self.idkey, z3.And(h0 == h1, v0 == v1))))
+
+    def finish(self, ex, st0, outcomes, b):
+        ex.oblige(st0, 'rejected_path_exists', z3.BoolVal(any(oc[0] == 'exc' for _, oc in outcomes)))
+
+
+@register
+class MkIndices(_TableBase):
+    id = 'C11.mk_indices'
+    target = f'{LK}._mk_indices'
+    doc = ('_mk_indices(obj): every iteration over the index definitions calls mk_keys(obj) exactly once on its index; '
+           'the keys it returns are recorded as (index, key) references in the same order, a None result or a '
+           'TypeError/AttributeError of the key function records nothing and goes on. Any other exception (duplicate '
+           'key in a unique index) undoes exactly the recorded references (one rm_key(ref.key, obj) on ref.index_dict '
+           'each), leaves _object_ids untouched and propagates. On success the recorded references are appended to the '
+           'back-reference entry of obj (created when absent); other entries are untouched')
+
+    def setup(self, b):
+        t = self.build_table(b, with_entry=False)
+        st = b.st
+        had, val0 = self.entry_of(st, self.ids, self.idkey)
+        self.entry0 = (had, val0, z3.Select(st.get_arr('L'), Val.oid(val0)))
+        return t, [self.obj], {}
+
+    def callee_outcomes(self, ex, st, name, recv, args, node):
+        if name == 'mk_keys':
+            outs = []
+            for cls in ('AttributeError', 'TypeError'):
+                outs.append((st.fork(), Raise(ex.mk_exc(cls, 'key function failed'))))
+            outs.append((st.fork(), Raise(ex.mk_exc('KeyError', 'rejected by mk_keys'))))
+            outs.append((st.fork(), Raise(ex.mk_exc('*', 'rejected by mk_keys'))))
+            none = st.fork()
+            none.ghost['c:keys'] = None
+            outs.append((none, NONE))
+            keys = st.new_list()
+            ks = fresh(SeqVal, 'keys')
+            st.set_list_seq(keys, ks)
+            st.ghost['c:keys'] = ks
+            outs.append((st, keys))
+            return outs
+        return [(st, NONE)]
+
+    def hooks(self, ex):
+        H = super().hooks(ex)
+        chk = self
+
+        def on_loop_head(ex_, st, node):
+            ak = st.locals.get('all_keys')
+            if ak is not None:
+                st.ghost['c:ak0'] = z3.Select(st.get_arr('L'), _oid(st, ak))
+                st.ghost['c:all_keys'] = ak
+                st.ghost['c:ids0'] = (st.get_arr('DK'), st.get_arr('DV'), st.get_arr('L'))
+                st.ghost.pop('c:keys', None)
+        H.on_loop_head = staticmethod(on_loop_head)
+        return H
+
+    def loops(self, ex):
+        def make(ex_, st, env):
+            had, val0, l0 = self.entry0
+            inv = {'existing_entry_of_obj_is_not_written_while_indexing':
+                   z3.Implies(had, z3.Select(st.get_arr('L'), Val.oid(val0)) == l0)}
+            if env['_phase'] != 'preserve':
+                return inv
+            own = self.own_calls(st, 0)
+            item = st.box(st.locals['index_definition'])
+            ob = lambda n, f: ex_.oblige(st, n, f, kind='loop')   # noqa: E731
+            ob('make.one_mk_keys_call_per_index_on_that_index', z3.And(
+                z3.BoolVal(len(own) == 1 and own[0][0] == 'mk_keys'), Val.oid(own[0][1]) == Val.oid(item),
+                own[0][2][0] == Val.ref(self.obj.e)) if len(own) == 1 else z3.BoolVal(False))
+            now = z3.Select(st.get_arr('L'), _oid(st, st.locals['all_keys']))
+            before = st.ghost['c:ak0']
+            ks = st.ghost.get('c:keys')
+            if ks is None:
+                ob('make.nothing_recorded_without_keys', now == before)
+            else:
+                j = z3.Int('j')
+                tail = z3.SubSeq(now, z3.Length(before), z3.Length(ks))
+                ob('make.recorded_references_grow_by_one_per_returned_key',
+                   z3.And(z3.Length(now) == z3.Length(before) + z3.Length(ks), z3.SubSeq(now, 0, z3.Length(before)) == before))
+                ob('make.recorded_reference_names_the_index_and_the_key_in_order', z3.ForAll([j], z3.Implies(
+                    z3.And(j >= 0, j < z3.Length(ks)), z3.And(
+                        Val.is_ref(tail[j]),
+                        Val.oid(z3.Select(st.get_arr('f:index_dict'), Val.oid(tail[j]))) == Val.oid(item),
+                        z3.Select(st.get_arr('f:key'), Val.oid(tail[j])) == ks[j]))))
+            dk0, dv0, l0 = st.ghost['c:ids0']
+            ob('make.back_references_not_written_before_all_indices_accepted', z3.And(
+                z3.Select(st.get_arr('DK'), self.ids.e) == z3.Select(dk0, self.ids.e),
+                z3.Select(st.get_arr('DV'), self.ids.e) == z3.Select(dv0, self.ids.e)))
+            return inv
+
+        def undo(ex_, st, env):
+            if env['_phase'] == 'entry':
+                ex_.oblige(st, 'undo.iterates_the_recorded_references',
+                           env['_seq'] == z3.Select(st.get_arr('L'), _oid(st, st.locals['all_keys'])), kind='loop')
+            if env['_phase'] == 'preserve':
+                own = self.own_calls(st, 1)
+                item = st.box(st.locals['obj_ref'])
+                ex_.oblige(st, 'undo.one_rm_key_per_recorded_reference_on_its_index_with_its_key', z3.And(
+                    z3.BoolVal(len(own) == 1 and own[0][0] == 'rm_key'),
+                    Val.oid(own[0][1]) == Val.oid(z3.Select(st.get_arr('f:index_dict'), Val.oid(item))),
+                    own[0][2][0] == z3.Select(st.get_arr('f:key'), Val.oid(item)),
+                    own[0][2][1] == Val.ref(self.obj.e)) if len(own) == 1 else z3.BoolVal(False), kind='loop')
+            return z3.BoolVal(True)
+        return {0: LoopSpec(inv=make, havoc_heap=['L', 'f:index_dict', 'f:key']),
+                1: LoopSpec(inv=undo, havoc_heap=[])}
+
+    def post(self, ex, st0, st, outcome, b):
+        kq = z3.Const('kq', Val)
+        h0, v0 = self.entry_of(st0, self.ids, kq)
+        h1, v1 = self.entry_of(st, self.ids, kq)
+        calls = st.ghost['calls']
+        if outcome[0] == 'exc':
+            ex.oblige(st, 'rejected.only_a_rejection_by_mk_keys_propagates',
+                      z3.BoolVal(outcome[1].origin == 'rejected by mk_keys'), info={'exc': repr(outcome[1])})
+            ex.oblige(st, 'rejected.undo_loop_ran', z3.BoolVal(('#loop', 1) in calls))
+            ex.oblige(st, 'rejected.back_references_untouched', z3.ForAll([kq], z3.And(h0 == h1, v0 == v1)))
+            return
+        ex.oblige(st, 'accepted.no_undo_step', z3.BoolVal(('#loop', 1) not in calls))
+        has, val = self.entry_of(st, self.ids, self.idkey)
+        had, val0 = self.entry_of(st0, self.ids, self.idkey)
+        old = z3.If(had, z3.Select(st0.get_arr('L'), Val.oid(val0)), z3.Empty(SeqVal))
+        ak = z3.Select(st.get_arr('L'), _oid(st, st.ghost['c:all_keys'])) if 'c:all_keys' in st.ghost else None
+        ex.oblige(st, 'accepted.recorded_references_appended_to_the_entry_of_obj', z3.And(
+            has, Val.is_ref(val), z3.Select(st.get_arr('L'), Val.oid(val)) == z3.Concat(old, ak)) if ak is not None else z3.BoolVal(False))
+        ex.oblige(st, 'accepted.other_back_references_untouched', z3.ForAll([kq], z3.Implies(kq != self.idkey, z3.And(h0 == h1, v0 == v1))))
+
+    def finish(self, ex, st0, outcomes, b):
+        ex.oblige(st0, 'both_outcomes_exist', z3.BoolVal({oc[0] for _, oc in outcomes} == {'exc', 'ret'}))
